@@ -202,7 +202,7 @@ func predPnamePrefixSpace(si []slotInfo) bool {
 
 var (
 	textCommentCR = regexp.MustCompile(`#[^\n]*\r([^\n]|$)`)
-	textBnplSemi  = regexp.MustCompile(`\][^;]*;`)
+	textBnplSemi  = regexp.MustCompile(`(?s)(^|[.}])[ \t\r\n]*\[.*\].*;`)
 )
 
 // textClasses: over-approximations of comment-cr and bnpl-subject-semicolon on a text that is not the
